@@ -564,6 +564,8 @@ class ItemFactory:
                     raise RuntimeError(
                         f'Procedure {item_name} defined in multiple imported modules: {", ".join(candidate_modules)}'
                     )
+                if self._is_ignored(candidates[0].name, config, ignore):
+                    return None
                 return candidates[0]
 
             # The procedure may be provided by one of these modules but excluded via a
